@@ -452,7 +452,46 @@ def ghost_decls(sig):
     return decl, req, ens, plist, ret
 
 
-def weave_fn(item_text, key, contract, mode, em, no_requires=False, no_ensures=False):
+CANARIES = []
+VACUITY = [False]
+
+
+def _collect_canary(key, sig, c, self_ty):
+    """vacuity guard: `proof fn canary(params) requires <pre && ok> ensures false` must FAIL"""
+    if c is None or c.stub:
+        return
+    try:
+        ps = parse_sig(sig)
+    except AnchorLost:
+        return
+    if re.search(r'fn\s+\w+\s*<\s*[A-Z]', sig):
+        return            # generic over types: skipped
+    params = []
+    for nm, ty, slf in ps['params']:
+        if slf:
+            if self_ty is None:
+                return
+            t = self_ty if slf in ('self', 'mut self') else '&' + self_ty
+            params.append('self_: %s' % t)
+        else:
+            if 'impl ' in ty or '&mut' in ty:
+                return
+            params.append('%s: %s' % (nm, ty))
+    reqs = list(c.pre) + ([x for (_, x) in c.ok] if c.ok is not None else [])
+
+    def fix(e):
+        e = re.sub(r'(?<![A-Za-z0-9_])self(?![A-Za-z0-9_])', 'self_', e)
+        if self_ty is not None:
+            e = re.sub(r'(?<![A-Za-z0-9_])Self(?![A-Za-z0-9_])', self_ty, e)
+        return e
+    params = [re.sub(r"'[a-z_]+\s*", '', q) for q in params]
+    CANARIES.append((key, [fix(p) for p in params], [fix(r) for r in reqs]))
+
+
+def weave_fn(item_text, key, contract, mode, em, no_requires=False, no_ensures=False, self_ty=None):
+    if VACUITY[0]:
+        _sig0, _ = rsx.fn_parts(rewrite_body(strip_attrs_and_comments(item_text)))
+        _collect_canary(key, _sig0, contract, self_ty)
     """Emit the function `item_text` with `contract` woven in.
     mode: 'F' (forward: requires pre && ok, ensures post) or
           'D' (dev-profile partial correctness: requires pre, ensures ok && post)."""
@@ -690,6 +729,11 @@ class Unit:
     def generate(self, sources, mode):
         """sources: {src name: index dict from rsx.index}. Returns (text, linemap, meta)."""
         em = Emitter()
+        del CANARIES[:]
+        VACUITY[0] = (mode == 'V')
+        vac = VACUITY[0]
+        if vac:
+            mode = 'F'
         em.emit('#![allow(unused_imports, unused_variables, unused_mut, dead_code, unused_parens, '
                 'unused_braces, non_snake_case, non_camel_case_types, unused_assignments, unreachable_code)]')
         em.emit('use vstd::prelude::*;')
@@ -740,6 +784,13 @@ class Unit:
                 self._emit_inherent(e, it, mode, em, meta)
             elif e.kind == 'method_fn':  # R54 (C12)
                 _emit_method_fn(self, e, it, mode, em, meta)
+        if vac:
+            for i, (key, params, reqs) in enumerate(CANARIES):
+                t = 'proof fn vacuity_canary_%d(%s)\n' % (i, ', '.join(params))
+                if reqs:
+                    t += '    requires\n' + ''.join('        %s,\n' % r for r in reqs)
+                t += '    ensures false,\n{ }\n'
+                em.emit(t, ('canary', key))
         em.emit('} // verus!')
         em.emit('fn main() {}')
         text, linemap = em.render()
@@ -777,7 +828,9 @@ class Unit:
                     em.emit(self._ghost_defs(ch, c, mode), ('ghost', k))
                 weave_fn(ch.text, k, c, mode, em,
                          no_requires=(trait is not None and not (c is not None and c.impl_requires)),
-                         no_ensures=is_crate_trait)
+                         no_ensures=is_crate_trait,
+                         self_ty=(None if (hp['generics'] and re.search(r'[A-Z]', hp['generics'])) or hp['self_ty'] == 'Self'
+                                  else hp['self_ty']))
             else:
                 em.emit(rewrite_body(strip_attrs_and_comments(ch.text)), ('impl', e.key))
         missing = set(methods) - seen
@@ -952,7 +1005,7 @@ def _emit_inherent(self, e, it, mode, em, meta):
             if ch.kind == 'fn':
                 k = e.key + '::' + ch.name
                 meta['functions'][k] = _fn_meta(ch, e.src)
-                weave_fn(ch.text, k, members[nm], mode, em)
+                weave_fn(ch.text, k, members[nm], mode, em, self_ty=parse_impl_header(blocks[0].header)['self_ty'])
             else:
                 em.emit(rewrite_body(strip_attrs_and_comments(ch.text)), ('impl', e.key))
     missing = set(members) - seen
